@@ -153,8 +153,56 @@ def check_tree_ops(h: Harness, spec, b, g, mind, rng):
                 h.count("skipped-recursion")
 
 
+def retarget_scenario(h: Harness, rng):
+    """The documented way of re-parameterising a grammar: assign a new declared type to
+    `Cls.__init__.__annotations__[field]` and extract again.  The second grammar (same classes, same
+    process) must follow the NEW declaration."""
+    for _ in range(h.n(15, 150)):
+        spec = gram.productive_spec(rng, max_classes=rng.choice([3, 4]), opts={"float": False})
+        b = gram.build(spec)
+        try:
+            g = b.extract()
+        except Exception:  # noqa: BLE001
+            continue
+        if g.get_min_tree_depth() >= 1000000:
+            continue
+        # use the first grammar once (creation walks every class's declared arguments)
+        synth.create(b, "grow", g.get_min_tree_depth() + 2, [rng.randrange(0, 1000) for _ in range(64)])
+        changed = False
+        for i, c in enumerate(spec.classes):
+            for j, (fn, ft) in enumerate(c.fields):
+                if isinstance(ft, tuple) and ft[0] == "ann" and ft[1] == "int" and ft[2][0] == "intRange":
+                    new = ("ann", "int", ("intRange", 40 + rng.randint(0, 5), 50 + rng.randint(0, 5)))
+                elif ft == "int":
+                    new = ("ann", "str", ("varRange", ["p", "q"]))
+                elif ft == "bool":
+                    new = ("ann", "int", ("intList", [7, 8]))
+                else:
+                    continue
+                c.fields[j] = (fn, new)
+                pt = gram.py_type(new, b.classes)
+                b.classes[i].__init__.__annotations__[fn] = pt
+                b.classes[i].__annotations__[fn] = pt
+                gram._collect_tymap(new, pt, b.tymap)
+                changed = True
+        if not changed:
+            continue
+        try:
+            g2 = b.extract()
+        except Exception:  # noqa: BLE001
+            continue
+        mind = g2.get_min_tree_depth()
+        if mind >= 1000000:
+            continue
+        h.count("retargeted-grammars")
+        for _ in range(4):
+            kind = rng.choice(["grow", "full", "pigrow"])
+            check_create(h, spec, b, kind, mind + rng.choice([0, 1, 2]), [rng.randrange(0, 1000) for _ in range(128)])
+
+
 def run(h: Harness):
     rng = h.rng
+    retarget_scenario(h, rng)
     nspecs = h.n(120, 2400)
     for _ in range(nspecs):
         dep = rng.random() < 0.25
